@@ -57,8 +57,9 @@ class LoopSpec:
     """side-car loop contract, keyed by (function qualname, loop kind, ordinal) - not by the text of the condition.
     inv(env, k) -> z3 Bool;  variant(env) -> z3 Int (optional);  havoc: names -> callable(engine, old) (optional)"""
 
-    def __init__(self, name, inv, variant=None, havoc=None, modifies=None):
-        self.name, self.inv, self.variant, self.havoc, self.modifies = name, inv, variant, havoc or {}, modifies
+    def __init__(self, name, inv, variant=None, havoc=None, modifies=None, ghost=(), heap_havoc=None):
+        self.name, self.inv, self.variant, self.havoc, self.modifies, self.ghost = name, inv, variant, havoc or {}, modifies, list(ghost)
+        self.heap_havoc = heap_havoc
 
 
 class Engine:
@@ -68,6 +69,7 @@ class Engine:
         self.loop_specs = {}         # (qualname, 'While'|'For', ordinal) -> LoopSpec
         self.merge_ifs = False
         self.feas_timeout_ms, self.max_paths = feas_timeout_ms, max_paths
+        self._seen_obl = set()
         self.obligations = []        # filled by oblige() during exploration (loop obligations) and by contracts
         self.np = self._make_np()
         self.extra_globals = {}
@@ -102,8 +104,9 @@ class Engine:
         return results
 
     def feasible(self, extra):
+        # quantified hypotheses are left out: feasibility is over-approximated (more paths), which is sound
         s = z3.Solver(); s.set("timeout", self.feas_timeout_ms)
-        s.add(*self.pc); s.add(*distinct_names()); s.add(extra)
+        s.add(*[c for c in self.pc if not z3.is_quantifier(c)]); s.add(*distinct_names()); s.add(extra)
         return s.check() != z3.unsat
 
     def decide(self, cond):
@@ -154,10 +157,16 @@ class Engine:
     def fresh(self, hint, sort="real"):
         self.fresh_n += 1
         nm = "%s!%d" % (hint, self.fresh_n)
+        if isinstance(sort, z3.SortRef):
+            return SV(z3.Const(nm, sort))
         t = {"real": z3.Real, "int": z3.Int, "bool": z3.Bool}[sort](nm) if sort != "name" else z3.Const(nm, NAME)
         return SV(t, sort)
 
     def oblige(self, oid, goal, kind="post", meta=None, pc=None):
+        key = (oid, z3.And(*(self.pc if pc is None else pc)).sexpr() if (self.pc if pc is None else pc) else "", goal.sexpr() if hasattr(goal, "sexpr") else str(goal))
+        if key in self._seen_obl:
+            return
+        self._seen_obl.add(key)
         self.obligations.append({"id": oid, "hyps": list(self.pc if pc is None else pc) + distinct_names(), "goal": goal, "kind": kind, "meta": meta or {}})
 
     def side_oblige(self, what, goal, node=None):
@@ -288,6 +297,8 @@ class Engine:
             return BUILTINS[name]
         if name == "np":
             return self.np
+        if fr.fn is not None and name in self._assigned_names(fr.fn.body):
+            raise PyRaise("UnboundLocalError", name, node, implicit=True)      # a local read before any assignment on this path
         raise Unsupported("free name %r (line %s)" % (name, getattr(node, "lineno", "?")))
 
     # ------------------------------------------------------------------------------------------ expressions
@@ -469,6 +480,9 @@ class Engine:
             if isinstance(other, int) and other == -1:
                 return o.isnone
             raise Unsupported("Opt == %r" % (other,))
+        for x_, y_ in ((a, b), (b, a)):
+            if isinstance(x_, Opaque) and "eq" in x_.methods:
+                return x_.methods["eq"](self, y_)
         if isinstance(a, CondStr) or isinstance(b, CondStr):
             c, other = (a, b) if isinstance(a, CondStr) else (b, a)
             if other == "":
@@ -733,17 +747,19 @@ class Engine:
         it = self.ev(g.iter)
         if isinstance(it, Opt): it = it.seq
         fr = self.frames[-1]
+        if isinstance(it, AccList):
+            return AccList(it.name + "#" + ast.unparse(x) + "#%d" % len(it.items))
         if isinstance(it, Seq):
             if g.ifs or kind != "list": raise Unsupported("filtered comprehension over symbolic sequence")
             saved = dict(fr.locals)
-            def elem(j, it=it, g=g, x=x, saved=saved):
-                old = self.frames[-1].locals
-                self.frames[-1].locals = dict(saved)
+            def elem(j, it=it, g=g, x=x, saved=saved, fr=fr):
+                # lazily evaluated element (possibly after the enclosing call returned): own frame over the captured locals
+                self.frames.append(Frame(fr.module, fr.cls, dict(saved), fr.fn))
                 try:
                     self.assign(g.target, it.elem(j))
                     return self.ev(x.elt)
                 finally:
-                    self.frames[-1].locals = old
+                    self.frames.pop()
             return Seq(it.ln, elem)
         items = self.iterate(it, x)
         out = [] if kind != "dict" else {}
@@ -1049,8 +1065,16 @@ class Engine:
 
     def _assigned_names(self, stmts):
         out = []
+        def walk(node):
+            # comprehensions have their own scope: their targets do not rebind names of the enclosing function
+            yield node
+            for ch in ast.iter_child_nodes(node):
+                if isinstance(node, (ast.ListComp, ast.SetComp, ast.DictComp, ast.GeneratorExp)) and isinstance(ch, ast.comprehension):
+                    for sub in ast.walk(ch.iter): yield sub
+                    continue
+                yield from walk(ch)
         for b in stmts:
-            for n in ast.walk(b):
+            for n in walk(b):
                 if isinstance(n, ast.Name) and isinstance(n.ctx, ast.Store) and n.id not in out:
                     out.append(n.id)
                 # containers mutated in place through a local name
@@ -1068,7 +1092,7 @@ class Engine:
             if m in spec.havoc:
                 loc[m] = spec.havoc[m](self, old)
             elif is_sym(old):
-                loc[m] = self.fresh(m, old.sort)
+                loc[m] = self.fresh(m, old.z.sort())
             elif isinstance(old, bool):
                 loc[m] = self.fresh(m, "bool")
             elif isinstance(old, int):
@@ -1092,13 +1116,16 @@ class Engine:
         if spec is None:
             raise Unsupported("loop %s has no side-car invariant" % (key,))
         loc = self.frames[-1].locals
-        mods = spec.modifies if spec.modifies is not None else self._assigned_names(s.body + ([s] if False else []))
+        mods = spec.modifies if spec.modifies is not None else self._assigned_names(s.body)
+        mods = list(mods) + [g for g in spec.ghost if g not in mods]
         if isinstance(s, ast.For):
             mods = [m for m in mods if m not in {n.id for n in ast.walk(s.target) if isinstance(n, ast.Name)}]
         self.oblige(spec.name + "/inv-init", spec.inv(loc, z3.IntVal(0)), kind="loop")
         alt = self.choose(2)
         k = self.fresh("k", "int").z
         self._havoc(spec, mods)
+        if spec.heap_havoc is not None:
+            spec.heap_havoc(self)
         if alt == 0:        # arbitrary iteration
             if seq is not None:
                 self.assume(z3.And(k >= 0, k < seq.ln))
@@ -1313,12 +1340,14 @@ def _b_int(e, x=0):
 
 
 def _b_all(e, it):
+    if isinstance(it, AccList): return SV(z3.Bool("all(%s)" % it.name), "bool")    # same list, same comprehension -> same truth value
     for v in e.iterate(it):
         if not e.decide(e.truth(v)): return False
     return True
 
 
 def _b_any(e, it):
+    if isinstance(it, AccList): return SV(z3.Bool("any(%s)" % it.name), "bool")
     for v in e.iterate(it):
         if e.decide(e.truth(v)): return True
     return False
